@@ -22,6 +22,7 @@ type hOp struct {
 	Exts []core.Extension `json:",omitempty"`
 	Data []byte           `json:",omitempty"`
 	Ent2 *core.Entity     `json:",omitempty"`
+	Val  *core.Validity   `json:",omitempty"`
 }
 
 type c12Case struct {
@@ -42,6 +43,9 @@ func applyOp(w *World, d *core.Dir, op hOp) *core.RunResult {
 		d.Put(e.File, e.Render())
 	case "edit-issuer":
 		e.Issuer = op.Text
+		d.Put(e.File, e.Render())
+	case "edit-validity":
+		e.Validity = op.Val
 		d.Put(e.File, e.Render())
 	case "set-profile":
 		e.Profile = op.Text
@@ -140,6 +144,8 @@ func normaliseCert(w *World, e *core.Entity, c *xref.Cert, issuerIsOwn bool) str
 	}
 	if v != nil && v.From != "" {
 		fmt.Fprintf(&sb, " nb=%v na=%v", c.NotBefore, c.NotAfter)
+	} else if v != nil && v.Until != "" {
+		fmt.Fprintf(&sb, " na=%v", c.NotAfter) // starts at the time of the run, ends on the configured day
 	} else {
 		fmt.Fprintf(&sb, " lifetime=%ds", (secsOf(c.NotAfter)-secsOf(c.NotBefore))/86400)
 	}
@@ -299,6 +305,25 @@ func genHistory(t *rapid.T, maxOps int) c12Case {
 		return false
 	}
 	broken := map[string]bool{}
+	if rapid.IntRange(0, 7).Draw(t, "validity-history") == 0 {
+		// a validity block given from the start, so that later edits of it have something to change
+		i := rapid.IntRange(0, len(w.Ents)-1).Draw(t, "vh-ent")
+		v := rapid.SampledFrom([]*core.Validity{{Until: "2041-06-07"}, {From: "2021-02-03", Until: "2041-06-07"}, {From: "2021-02-03", Duration: "3y"}, {Duration: "3y"}}).Draw(t, "vh-v")
+		w.Ents[i].Validity, c.Init.Ents[i].Validity = v, v
+		// ... and is edited in the smallest possible way once the first certificates exist
+		n := *v
+		switch {
+		case n.Until != "":
+			n.Until = "2042-07-08"
+		case n.Duration != "":
+			n.Duration = "4y"
+		}
+		if len(c.Ops) == 0 {
+			c.Ops = append(c.Ops, hOp{Kind: "run", Int: core.FlagDefault})
+		}
+		c.Ops = append(c.Ops, hOp{Kind: "edit-validity", Ent: w.Ents[i].EffAlias(), Val: &n})
+		w.Ents[i].Validity = &n
+	}
 	if len(w.Ents) >= 2 && rapid.IntRange(0, 7).Draw(t, "failed-session") == 0 {
 		// one editing session touches two entities, one of them with a build-time mistake; the run fails part-way;
 		// the mistake is corrected afterwards (the other edit must not get lost on the way)
@@ -325,7 +350,35 @@ func genHistory(t *rapid.T, maxOps int) c12Case {
 		e := &w.Ents[rapid.IntRange(0, len(w.Ents)-1).Draw(t, l+"-ent")]
 		alias := e.EffAlias()
 		var op hOp
-		switch rapid.IntRange(0, 19).Draw(t, l+"-kind") {
+		switch rapid.IntRange(0, 20).Draw(t, l+"-kind") {
+		case 20:
+			// the validity block appears, changes shape or value, or disappears
+			v := rapid.SampledFrom([]*core.Validity{nil, {Until: "2041-06-07"}, {Until: "2042-07-08"}, {From: "2021-02-03", Until: "2041-06-07"}, {From: "2021-02-03", Until: "2042-07-08"},
+				{From: "2021-02-04", Until: "2041-06-07"}, {From: "2021-02-03", Duration: "3y"}, {From: "2021-02-03", Duration: "4y"}, {Duration: "3y"}, {Duration: "7y"}, {From: "2021-02-03"}}).Draw(t, l+"-validity")
+			if !e.Validity.Empty() && rapid.Bool().Draw(t, l+"-neighbour") {
+				// the smallest edit: one value changes, the shape stays
+				n := *e.Validity
+				switch {
+				case n.Until != "":
+					n.Until = map[string]string{"2041-06-07": "2042-07-08"}[n.Until]
+					if n.Until == "" {
+						n.Until = "2041-06-07"
+					}
+				case n.Duration != "":
+					n.Duration = map[string]string{"3y": "4y"}[n.Duration]
+					if n.Duration == "" {
+						n.Duration = "3y"
+					}
+				default:
+					n.From = map[string]string{"2021-02-03": "2021-02-04"}[n.From]
+					if n.From == "" {
+						n.From = "2021-02-03"
+					}
+				}
+				v = &n
+			}
+			op = hOp{Kind: "edit-validity", Ent: alias, Val: v}
+			e.Validity = v
 		case 18:
 			// a mistake that only shows when the certificate is built (the configuration parses): runs fail from
 			// here on, part-way through, until the mistake is taken out again
@@ -495,7 +548,7 @@ func c12Fix(w *World, alias string) hOp {
 func TestC12(t *testing.T) {
 	r := core.Start(t, "C12")
 	defer r.Finish()
-	r.Rule = "stateful histories generated against an abstract model of the directory: initial forest of up to 5 entities / 4 tiers (EC keys, profiles, extensions incl. SKI/AKI hash), usually populated by a first run, then 1-6 operations from {edit subject, replace extension list, re-parent to a non-descendant, set/clear profile reference, edit a profile (validity, extension, optional flag), add a leaf, remove a leaf, delete / truncate (0-99%) / strip key / strip certificate / replace with a foreign certificate+key / overwrite with another entity's artifact the artifact of any entity, touch a config, put a build-time mistake into a config (runs then fail part-way until it is taken out again), run with any of the 32 flag sets}, each optionally followed by a run, and finally a default run. After every successful default run: (I1) every entity has a parseable certificate and key material; (I2) C01's chain checks for all certificates gopki made (hash line); (I3) each of those equals, after normalising serial/key/signature/run-relative dates/key-derived ids, the certificate of a from-scratch gopki run over the current configuration files; (I4) complete user-supplied root artifacts without hash line are byte-identical; (I5) one more default run is a no-op. Non-trivial = history in which some default run regenerates a strict, non-empty subset of the entities; distinct by the whole history."
+	r.Rule = "stateful histories generated against an abstract model of the directory: initial forest of up to 5 entities / 4 tiers (EC keys, profiles, extensions incl. SKI/AKI hash), usually populated by a first run, then 1-6 operations from {edit subject, set / change / remove the validity block, replace extension list, re-parent to a non-descendant, set/clear profile reference, edit a profile (validity, extension, optional flag), add a leaf, remove a leaf, delete / truncate (0-99%) / strip key / strip certificate / replace with a foreign certificate+key / overwrite with another entity's artifact the artifact of any entity, touch a config, put a build-time mistake into a config (runs then fail part-way until it is taken out again), run with any of the 32 flag sets}, each optionally followed by a run, and finally a default run. After every successful default run: (I1) every entity has a parseable certificate and key material; (I2) C01's chain checks for all certificates gopki made (hash line); (I3) each of those equals, after normalising serial/key/signature/run-relative dates/key-derived ids, the certificate of a from-scratch gopki run over the current configuration files; (I4) complete user-supplied root artifacts without hash line are byte-identical; (I5) one more default run is a no-op. Non-trivial = history in which some default run regenerates a strict, non-empty subset of the entities; distinct by the whole history."
 	r.Assumptions = []string{"edits keep the hierarchy acyclic and key types stable (EC only), so every default run is expected to be able to succeed; a failing run makes no claim"}
 	wrap := func(c c12Case) *core.Failure {
 		f, class := checkC12(c)
